@@ -90,6 +90,10 @@ def gen_case(rng, tier, idx):
                          [3, {"a": "limit", "side": "any", "off": [-3, 3], "vol": [1, 3], "ttl": [None, 3]}],
                          [1, {"a": "cancel", "which": "any"}], [1, {"a": "market", "side": "any", "vol": [1, 2], "ttl": [2]}]]}}
     cfg["simulation"]["agents"] = ["FCNFixed", "FCNNormal", "FCNIndex", "Share", "Maker", "Arb", "Tester", "Script"]
+    if idx % 2 == 1:
+        # a group that has its own id range AND is the parent of another group (whose range is its own)
+        cfg["FCNNormalB"] = {"extends": "FCNNormal", "from": 300, "to": 300 + rng.randint(1, 3)}
+        cfg["simulation"]["agents"].append("FCNNormalB")
     if idx % 8 == 2:
         # three more index markets, quoted every step with short-lived orders far from the price: orders of several index
         # markets reach the end of their lifetime in the same step (the records of one clock advance come in market order)
